@@ -97,8 +97,8 @@ it, and lets `ignoreErrors` append to a mask list shared by all documents.  Proj
 
 def nsA : String := "urn:a"
 def nsB : String := "urn:b"
-def lightOk (ns : String) : Item := ⟨.lights, "l0", ns, none⟩
-def lightBad (ns : String) : Item := ⟨.lights, "l1", ns, some .incomplete⟩
+def lightOk (ns : String) : Item := ⟨.lights, "l0", ns, none, false⟩
+def lightBad (ns : String) : Item := ⟨.lights, "l1", ns, some .incomplete, false⟩
 
 /-- witness 1 (namespace leak): load A, load B, save A -/
 def leakNs : Sched := [(0, .load nsA none [] [lightOk nsA]), (1, .load nsB none [] [lightOk nsB]), (0, .save)]
@@ -132,8 +132,8 @@ theorem leaky_writes_globals : (runDocsL leakNs initSys).1.globals ≠ initSys.g
 /-! ### non-vacuity: concrete schedules over three documents with mixed namespaces, a damaged
     document, different masks, edits and saves -/
 
-def matBad (ns : String) : Item := ⟨.materials, "m1", ns, some .brokenRef⟩
-def foreign : Item := ⟨.lights, "l9", "urn:other", some .malformed⟩
+def matBad (ns : String) : Item := ⟨.materials, "m1", ns, some .brokenRef, false⟩
+def foreign : Item := ⟨.lights, "l9", "urn:other", some .malformed, false⟩
 
 def demo : Sched :=
   [ (0, .load nsA none [] [lightOk nsA, foreign]),
